@@ -1,5 +1,5 @@
 """Property -> rules registry."""
-from .rules import kernel
+from .rules import kernel, incr, rot
 
 PROPS = {
     'C01': dict(
@@ -11,6 +11,27 @@ PROPS = {
                  'recurrence shape (row j -> row j+1, each increment once)'],
         undecided=['convergence and its order', 'second-order terms of the step',
                    'global discretisation error']),
+    'C15': dict(
+        rules=[incr.cs_rules, incr.cs_exact],
+        decided=['increment-type and rate-type branches agree on signals linear in time '
+                 '(coefficient, sign and operand order of every cross term relative to the '
+                 'sibling branch)',
+                 'theta/dv/dt columns first-order consistent with the integrals of the readings',
+                 'previous/current slicing, time stamps and documented columns',
+                 'for linear signals theta is exact through the cubic coning term and dv equals '
+                 'the first-order-rotation velocity integral (derived by polynomial integration)'],
+        undecided=['order of accuracy on general (sinusoidal) signals (a limit statement)']),
+    'C17': dict(
+        rules=[rot.rot_series, rot.rot_exp, rot.euler_conv],
+        decided=['small-angle arm is the Maclaurin truncation of the closed form and continuous '
+                 'across the branch to 2^-53',
+                 'rotation-vector routine is the exponential map (Rodrigues coefficients as '
+                 'series, sign pattern of util.skew_matrix)',
+                 "every roll/pitch/heading conversion uses the same extrinsic 'xyz' degree "
+                 'convention'],
+        undecided=['sign conventions inside scipy Rotation (trusted library)',
+                   'numerical round trip of Euler angles',
+                   'entries of the Euler-angle Jacobian _phi_to_delta_rph beyond units']),
 }
 
 
